@@ -283,6 +283,8 @@ class AsyncIOClient(ABC):
         all, otherwise each of them would make its own attempt and the delay between attempts would shrink
         with the number of senders.
         """
+        if self._state == State.CLOSED:
+            return  # close() was called from the status callback that reported the fault: nothing to reconnect
         if self._reconnect_task is None or self._reconnect_task.done():
             self._reconnect_task = asyncio.create_task(self._reconnect())
 
